@@ -1,10 +1,34 @@
 (* C04 — An instruction statement assembles to the encoding of what was written.
-   Theorems about the model of src/arm6m/mod.rs (mnemonic table, register tables, `convert!` converters,
-   per-instruction operand processing); the evaluator is a parameter.  The surface-syntax clause (every
-   spelling of a statement, through the real tokenizer, parser and evaluator) is decided by the C04
-   correspondence stream, whose oracle StmtSpec.expected_bytes is the ARMv6-M table (C01). *)
+   Statements only.  Model of src/arm6m/mod.rs: Arm/AsmStmtModel.v (mnemonic table `template`, register tables `regl` / `sysl`,
+   the `convert!` converters, per-instruction operand processing `assemble_args`, `assemble_stmt`); the expression evaluator is
+   the model of asm::simplify::evaluate under a constant table lk (`ev_of lk`, Arm/AsmEvalLink.v) or, where stated, ANY
+   evaluator `ev`.  Oracles: Arm/AsmOperands.v -- `operands i addr` (the operand VALUES of a statement for instruction i:
+   PC-relative operands are the absolute target = statement address + 4 (word-aligned first for ADR / literal LDR) + offset),
+   `writes lk p a` / `written` (the documented ways of WRITING an operand: any spelling of a register / special register /
+   flag name, any expression tree the evaluator reduces to the value, [b + e] | [e + b] | [b], {register lists} in any order),
+   `reads ev p a` (the same through an arbitrary evaluator), `mnemonic_names` (BCS/BHS, BCC/BLO, BICS/BIC), `respelled`,
+   `kinds` / `verdict` (which operand kind a template expects where and what its converter answers).
+
+   PROVED, over argument trees and over SOURCE TEXT:
+   * accepted (completeness): every statement written in a documented way for an encodable instruction i -- mnemonic in any
+     letter case or alias, names in any spelling, immediates / targets as arbitrary constant expressions, all memory operand
+     forms -- assembles to exactly i (C04_immediate_expressions, C04_spelling_names); from the CHARACTERS, with any
+     separators / comments / line breaks / redundant parentheses / number spellings (C04_text, C04_text_canonical,
+     C04_text_respelled; composition with C09's text theorems).  The bytes of i are the table's by C01.
+   * never wrapped (soundness): a statement that assembles to i was read as exactly the operand values of i, and the encoder's
+     answer on i is the ARMv6-M table's answer (C04_no_wrap, C04_branch_exact, C04_branch_offset, C04_literal_offset).
+   * rejected: unknown mnemonic, wrong operand count, and -- with the right count -- the first operand (left to right) whose
+     converter rejects it decides the diagnostic: wrong kind = DArgType, unknown register = DNoSuchRegister, number outside
+     i32 / u32 = DValueRange (the C04_rejects_ theorems); no statement panics (C04_never_panics).
+   NOT proved here: (a) that assemble_stmt IS what src/arm6m/mod.rs does -- the model is compared with the real assembler by
+   the C04 / C19 correspondence streams; (b) invariance of REJECTED statements under respelling; (c) for statements that
+   convert but fail a post-conversion check (BKPT/SVC/UDF range, RSBS #0, flag name, LDRSB offset kind, PC-relative range /
+   alignment) the diagnostic class is proved only for the PC-relative checks (C04_branch_offset, C04_literal_offset);
+   (d) placing the bytes at the statement's address in the image is C05's business. *)
 From Coq Require Import ZArith NArith List String.
-From Trion Require Import Text.Types Arm.Instr Arm.EncodeModel Arm.DisplayModel Arm.DisplayArgs Arm.AsmStmtModel Arm.AsmStmtProofs.
+From Trion Require Import Text.Types Text.ParseModel Text.Render Text.ParseProofs Text.ShowSpec Expr.I64 Expr.EvalModel Expr.Denote Expr.C08Sound
+  Arm.Instr Arm.EncodeModel Arm.Armv6mSpec Arm.CodecCheck Arm.DisplayModel Arm.DisplayArgs Arm.AsmStmtModel Arm.AsmStmtProofs Arm.AsmEvalLink
+  Arm.AsmOperands Arm.AsmRejects Arm.AsmSpelling Arm.AsmImmediates Arm.AsmRespell Arm.AsmNoWrap Arm.AsmText Bin.TextRoundtrip.
 Import ListNotations.
 Open Scope N_scope.
 
@@ -40,8 +64,159 @@ Theorem C04_documented_syntax : forall ev local i addr hws, ev_display ev ->
   conv_val (assemble_stmt ev local addr (mnemonic i) (display_args i addr)) = Some i.
 Proof. exact stmt_roundtrip. Qed.
 
+(* ------------------------------------------------------------------------------------------------------------------ *)
+(* mnemonics: any letter case, and the aliases, select the instruction's template *)
+Theorem C04_mnemonic_spelling : forall i name, In (upper_str name) (mnemonic_names i) -> template name = Some (kind_template i).
+Proof. exact template_spelling. Qed.
+
+(* 1. spelling of names: in the statement printed for an encodable instruction i (C04_documented_syntax / C19), the mnemonic
+   replaced by any string whose upper-casing is one of i's mnemonics, every register / special register identifier (also
+   inside [..] and {..}) by any spelling of the same register, the CPS flag and the barrier option by any letter case:
+   the statement still assembles to i *)
+Theorem C04_spelling_names : forall lk, (forall t, t < 4294967296 -> lk (label t) = Found (Z.of_N t)) ->
+  forall local i addr hws name args', wf_instr i -> enc i = EncOk hws -> target_in_space i addr = true ->
+  In (upper_str name) (mnemonic_names i) -> Forall2 respelled (display_args i addr) args' ->
+  conv_val (assemble_stmt (ev_of lk) local addr name args') = Some i.
+Proof. exact respelled_assembles. Qed.
+
+(* 2. immediates and targets as arbitrary constant expressions, every documented operand form: any argument list that WRITES
+   the operand values of i (AsmOperands.writes: names in any spelling; in every number position any expression tree e with
+   evaluate lk is_register e = Ok (AConst v, Complete _); memory operands [b + e], [e + b], [b] for offset 0, [b + r];
+   register lists in any order with repetitions) assembles to i.  No hypothesis about the table lk. *)
+Theorem C04_immediate_expressions : forall lk local i addr hws name args,
+  wf_instr i -> enc i = EncOk hws -> target_in_space i addr = true ->
+  In (upper_str name) (mnemonic_names i) -> Forall2 (writes lk) (operands i addr) args ->
+  conv_val (assemble_stmt (ev_of lk) local addr name args) = Some i.
+Proof. exact written_assembles. Qed.
+
+(* ... for ANY evaluator: arguments that are READ as the operand values (also LDR Rt, [PC + off] for the literal load) *)
+Theorem C04_reads_assembles : forall ev local i addr hws name args,
+  wf_instr i -> enc i = EncOk hws -> target_in_space i addr = true ->
+  In (upper_str name) (mnemonic_names i) -> stmt_reads ev i addr args ->
+  conv_val (assemble_stmt ev local addr name args) = Some i.
+Proof. exact stmt_reads_assembles. Qed.
+
+(* which expressions qualify: every literal expression whose ideal value is v (C07: each intermediate result fits i64) ... *)
+Theorem C04_literal_immediates : forall lk t v, literal_tree t = true -> ideal t = Val v -> wval lk v t.
+Proof. exact wval_literal. Qed.
+(* ... a symbol the table has a value for; and whatever qualifies has the checked 64-bit value of the expression under every
+   assignment compatible with the table (C08) *)
+Theorem C04_symbol_immediates : forall lk s v, is_register s = false -> lk s = Found v -> wval lk v (AIdent s).
+Proof. exact wval_symbol. Qed.
+Theorem C04_immediate_value : forall lk rho e v v', wval lk v e -> compat rho lk is_register -> den64 rho e = Some v' -> v = v'.
+Proof. exact wval_den64. Qed.
+
+(* register lists: the bits of {..} are exactly the registers named, in any order, with repetitions *)
+Theorem C04_register_list_bits : forall rs n, N.testbit (mask_of rs) n = existsb (fun r => N.eqb (reg_num r) n) rs.
+Proof. exact mask_of_spec. Qed.
+
+(* 3. rejections *)
+Theorem C04_rejects_unknown_mnemonic : forall ev local addr name args, template name = None ->
+  assemble_stmt ev local addr name args = CDiag DNotFound (mkAst args 0).
+Proof. exact stmt_unknown_mnemonic. Qed.
+
+Theorem C04_rejects_too_many : forall ev local addr name t args, template name = Some t ->
+  (List.length (kinds t) < List.length args)%nat -> assemble_stmt ev local addr name args = CDiag DTooMany (mkAst args 0).
+Proof. exact stmt_too_many. Qed.
+
+Theorem C04_rejects_not_enough : forall ev local addr name t args, template name = Some t ->
+  (List.length args < List.length (kinds t))%nat -> assemble_stmt ev local addr name args = CDiag DNotEnough (mkAst args 0).
+Proof. exact stmt_not_enough. Qed.
+
+(* right count: the first operand (left to right) whose converter rejects it decides the diagnostic *)
+Theorem C04_rejects_first_failure : forall ev local addr name t args p k a d, template name = Some t ->
+  List.length args = List.length (kinds t) ->
+  nth_error (kinds t) p = Some k -> nth_error args p = Some a -> verdict ev local k a = VDiag d ->
+  (forall q kq aq, (q < p)%nat -> nth_error (kinds t) q = Some kq -> nth_error args q = Some aq -> verdict ev local kq aq = VAccept) ->
+  exists st, assemble_stmt ev local addr name args = CDiag d st.
+Proof. exact stmt_first_failure. Qed.
+
+(* the verdicts: an operand (after evaluation, for the evaluated kinds) of a shape the kind does not take is DArgType ... *)
+Theorem C04_rejects_wrong_kind : forall ev local k a a', seen ev k a a' -> kind_shape k a' = false ->
+  verdict ev local k a = VDiag DArgType.
+Proof. exact verdict_wrong_kind. Qed.
+
+(* ... an identifier that is not a (special) register name where one is expected is DNoSuchRegister ... *)
+Theorem C04_rejects_unknown_register : forall ev local k a s, seen ev k a (AIdent s) ->
+  match k with KReg | KImmReg => regl s = None | KSys => sysl s = None | _ => False end ->
+  verdict ev local k a = VDiag DNoSuchRegister.
+Proof. exact verdict_unknown_register. Qed.
+
+(* ... a number outside i32 (immediates) / u32 (targets, BKPT) is DValueRange: never truncated ... *)
+Theorem C04_rejects_out_of_range : forall ev local k a v, seen ev k a (AConst v) ->
+  match k with
+  | KImm | KImmReg => (v < -2147483648 \/ 2147483647 < v)%Z
+  | KOff | KAddrOff => (v < 0 \/ 4294967295 < v)%Z
+  | _ => False
+  end -> verdict ev local k a = VDiag DValueRange.
+Proof. exact verdict_out_of_range. Qed.
+
+(* ... in a register list the first item that is not a register name decides *)
+Theorem C04_rejects_regset_item : forall ev local items pre post, items = map AIdent pre ++ post ->
+  Forall (fun n => regl n <> None) pre ->
+  match post with
+  | AIdent s :: _ => regl s = None -> verdict ev local KSet (ASeq items) = VDiag DNoSuchRegister
+  | x :: _ => is_ident x = false -> verdict ev local KSet (ASeq items) = VDiag DArgType
+  | [] => True
+  end.
+Proof. exact verdict_regset_item. Qed.
+
+(* no index out of bounds, no unreachable arm, for any statement and any evaluator *)
+Theorem C04_never_panics : forall ev local addr name args, assemble_stmt ev local addr name args <> CPanic.
+Proof. exact stmt_no_panic. Qed.
+
+(* never a wrapped, truncated or neighbouring encoding: what assembles to i is the mnemonic of i, was read as exactly the
+   operand values of i (each field of i is the value of its argument; PC-relative: target - (address + 4) exactly), i is
+   within the Rust field types, and the encoder's answer on i is the ARMv6-M table's answer (bytes or Unrepresentable) *)
+Theorem C04_no_wrap : forall ev local addr name args i st',
+  assemble_stmt ev local addr name args = COk i st' ->
+  template name = Some (kind_template i) /\ wf_instr i /\ stmt_reads ev i addr args /\ enc i = of_spec (armv6m_enc i).
+Proof. exact no_wrap. Qed.
+
+(* 4. from the CHARACTERS: the statement written as the tokens ws (any rendering of its argument trees: redundant parentheses
+   anywhere; every number in radix 2/8/10/16, either digit case, leading zeros, or as a character literal) with any
+   separators seps (white space, comments, line breaks) that do not fuse tokens *)
+Theorem C04_text : forall lk local i addr hws name args ws seps,
+  wf_instr i -> enc i = EncOk hws -> target_in_space i addr = true ->
+  In (upper_str name) (mnemonic_names i) -> Forall2 (writes lk) (operands i addr) args ->
+  RendStmts [EInstruction name args] (map wtok_val ws) -> Forall wtok_ok ws -> wseps_ok ws seps ->
+  asm_text lk local addr (showw ws seps) = Some i.
+Proof. exact written_text_assembles. Qed.
+
+Theorem C04_text_canonical : forall lk local i addr hws name args seps,
+  wf_instr i -> enc i = EncOk hws -> target_in_space i addr = true ->
+  In (upper_str name) (mnemonic_names i) -> Forall2 (writes lk) (operands i addr) args ->
+  writable_stmt (EInstruction name args) = true -> seps_ok (render_stmt (EInstruction name args)) seps ->
+  asm_text lk local addr (show (render_stmt (EInstruction name args)) seps) = Some i.
+Proof. exact written_text_assembles_canonical. Qed.
+
+Theorem C04_text_respelled : forall lk local i addr hws name args' ws seps,
+  (forall t, t < 4294967296 -> lk (label t) = Found (Z.of_N t)) ->
+  wf_instr i -> enc i = EncOk hws -> target_in_space i addr = true ->
+  In (upper_str name) (mnemonic_names i) -> Forall2 respelled (display_args i addr) args' ->
+  RendStmts [EInstruction name args'] (map wtok_val ws) -> Forall wtok_ok ws -> wseps_ok ws seps ->
+  asm_text lk local addr (showw ws seps) = Some i.
+Proof. exact respelled_text_assembles. Qed.
+
 Theorem C04_examples :
   regl (bytes_of_string "r13"%string) = Some SP /\ regl (bytes_of_string "Lr"%string) = Some LR /\ regl (bytes_of_string "R16"%string) = None /\
   template (bytes_of_string "bics"%string) = Some (Bic R0 R0) /\ template (bytes_of_string "BICSS"%string) = None /\
-  is_register (bytes_of_string "primask"%string) = true.
+  is_register (bytes_of_string "primask"%string) = true /\
+  (* source text -> instruction, with the table k = 3 *)
+  let lk := fun s => if str_eqb s (bytes_of_string "k"%string) then Found 3%Z else NotFound in
+  let txt (s : string) := asm_text lk false 0x100 (bytes_of_string s) in
+  let dg name args := conv_diag (assemble_stmt (ev_of lk) false 0x100 (bytes_of_string name) args) in
+  txt "ldrB r1 , [ 2*2 + R13 ] /* c */ ;"%string = Some (Ldrb R1 SP (Imm 4)) /\
+  txt "bHs 0x100+4+(k-1)*2;"%string = Some (B CarrySet 4) /\
+  txt "LDR r7,0x104+0b1000;"%string = Some (Ldr R7 PC (Imm 8)) /\
+  txt "push {lr, R4, r4,r14};"%string = Some (Push 16400) /\
+  txt "cpsie I;"%string = Some (Cps true) /\ txt "str r0, [sp];"%string = Some (Str R0 SP (Imm 0)) /\
+  dg "movs"%string [AIdent (bytes_of_string "r0"%string); AConst 4294967296] = Some DValueRange /\
+  dg "movs"%string [AIdent (bytes_of_string "r16"%string); AConst 1] = Some DNoSuchRegister /\
+  dg "movs"%string [AConst 1; AConst 1] = Some DArgType /\
+  dg "movs"%string [AIdent (bytes_of_string "r0"%string)] = Some DNotEnough /\
+  dg "beq"%string [AConst 0x204] = Some DRange /\ dg "beq"%string [AConst 0x107] = Some DAlignment /\
+  (* converts, but the table has no row: the encoder rejects, nothing is truncated *)
+  conv_val (assemble_stmt (ev_of lk) false 0x100 (bytes_of_string "movs"%string) [AIdent (bytes_of_string "r0"%string); AConst 256])
+    = Some (Mov true R0 (Imm 256)) /\ enc (Mov true R0 (Imm 256)) = EncUnrep.
 Proof. vm_compute. repeat split. Qed.
